@@ -8,6 +8,8 @@
 #define __CPROVER_assume(c) ((void)0)
 #endif
 #ifdef CPROVER
+void *malloc(__CPROVER_size_t);
+void free(void *);
 int nondet_int(void);
 unsigned nondet_uint(void);
 unsigned long nondet_ulong(void);
@@ -25,4 +27,13 @@ float nondet_float(void);
 #else
 #define HARNESS_END ((void)0)
 #endif
+/* strict-weak-order lemmas over three arbitrary records: LT(x,y) is the call */
+#define ASSERT_STRICT_ORDER(LT, a, b, c)                                                   \
+  do {                                                                                     \
+    __CPROVER_assert(!LT(a, a), "irreflexive");                                            \
+    __CPROVER_assert(IMPLIES(LT(a, b), !LT(b, a)), "asymmetric");                          \
+    __CPROVER_assert(IMPLIES(LT(a, b) && LT(b, c), LT(a, c)), "transitive");               \
+    __CPROVER_assert(IMPLIES(!LT(a, b) && !LT(b, a) && !LT(b, c) && !LT(c, b),             \
+                             !LT(a, c) && !LT(c, a)), "incomparability is transitive");    \
+  } while (0)
 #endif
